@@ -192,9 +192,12 @@ def decisive(alg, num):
                 if a is None or a[1] != ONE or len(a[0].t) != 1:
                     return False
                 (mono, _c), = a[0].t.items()
-                if len(mono) != 1 or mono[0][1] != 1 or alg.var_info.get(mono[0][0], ('?',))[0] != 'atom':
+                # one monomial: an input angle, or (slerp) the arccos symbol times the interpolation parameter - generically independent of the rest
+                if not all(alg.var_info.get(v_, ('?',))[0] == 'atom' or alg.var_info.get(v_, ('?', '?'))[1] in ('acos_approx', 'acos') for (v_, _e) in mono):
                     return False
-                trig_atoms.append((info[1], mono[0][0], _c))
+                trig_atoms.append((info[1], mono, _c))
+            continue
+        if info[0] == 'fn' and info[1] in ('acos_approx', 'acos'):
             continue
         return False
     # the same angle atom with two different multipliers (t and t/2) would not be independent
@@ -204,10 +207,13 @@ def decisive(alg, num):
     return all(len(s) == 1 for s in mult.values())
 
 
-def residual(quantities, rel_args):
+def residual(quantities, rel_args, trig=False):
     """-> (ok, decisive, text) for one branch-free case: every quantity must normalise to zero"""
     alg = nf.Algebra()
     alg.budget = 400000
+    if trig:
+        alg.expand_angles = True
+        alg.acos_exact = True
     S = Spec(alg)
     for lanes in rel_args:
         unit_relation(alg, lanes)
@@ -235,6 +241,7 @@ def residual(quantities, rel_args):
 def run_producers(ctx, cfg, F, H, floor_decided):
     M = MatModel(F, H)
     n_ok = 0
+    Habs = [None]
     for name, it in api_roots(F):
         st = (it.get('self_ty') or '').lstrip('&')
         tname = st.rsplit('::', 1)[-1]
@@ -267,7 +274,15 @@ def run_producers(ctx, cfg, F, H, floor_decided):
                 continue
             if mname == 'mul' and (body['argc'] != 2 or tydef(F, strip_ref(F, argtys[1])[0]) not in QUATS):
                 continue
-        for (label, r) in H.run_all(it['key']):
+        Hrun = H
+        if best_effort:
+            # slerp / rotate_towards: the polynomial arccos is read as acos and the SSE2 sine polynomial as sin (both certified by R-APPROX in
+            # C02 / C12), sines and cosines of sums are expanded by the addition formulas
+            if Habs[0] is None:
+                from C12 import _abstract_harness
+                Habs[0] = _abstract_harness(F)
+            Hrun = Habs[0]
+        for (label, r) in Hrun.run_all(it['key']):
             inst = name + ('[%s]' % label if label else '')
             if r.abort or r.ret is None:
                 (ctx.undecided if best_effort else ctx.unverifiable)('R-POST', cfg, inst, r.abort or 'diverges')
@@ -292,6 +307,9 @@ def run_producers(ctx, cfg, F, H, floor_decided):
                 if lanes is None:
                     ctx.unverifiable('R-POST', cfg, inst, 'result is not a quaternion value')
                     continue
+                if best_effort:
+                    from C07 import canon_c07
+                    lanes = [canon_c07(l) for l in lanes]
                 quantities.append((lanes, 1))
             else:
                 mi = M.info(rty)
@@ -326,7 +344,7 @@ def run_producers(ctx, cfg, F, H, floor_decided):
                         for (lanes, target) in quantities:
                             qs.append((ts[k:k + len(lanes)], target))
                             k += len(lanes)
-                        ok, dec, text = residual(qs, rel_args)
+                        ok, dec, text = residual(qs, rel_args, trig=best_effort)
                         if not ok:
                             problem = ('squared length of a result %s is not identically 1 for arguments meeting the documented preconditions: residual %s'
                                        % ('quaternion' if tname in QUATS else 'rotation column', text), dec)
@@ -337,7 +355,7 @@ def run_producers(ctx, cfg, F, H, floor_decided):
             if problem is None:
                 ctx.holds('R-POST', cfg, inst)
                 n_ok += 1
-            elif problem[1] and not best_effort:
+            elif problem[1]:
                 ctx.violation('R-POST', cfg, inst, {'file': it['file'], 'line': it['line'], 'problem': problem[0]})
             else:
                 ctx.undecided('R-POST', cfg, inst, problem[0])
